@@ -91,12 +91,40 @@ def case_size(case: dict) -> int:
 
 
 def shrinks(case: dict):
+    from sim.history import shrink_history
+
     hist = case.get("history")
     if not hist:
         return
-    for i in range(len(hist) - 1):
+
+    def simplify(op):
+        if op[0] == "gen" and op[1] > 1:
+            yield ["gen", 1]
+        elif op[0] == "probe":
+            yield ["probe", min(op[1], 5), 1]
+        elif op[0] == "pass":
+            if op[3] is not None:
+                yield ["pass", op[1], op[2], 0]
+            if op[1] > 2 * op[2]:
+                yield ["pass", 2 * op[2], op[2], op[3]]
+        elif op[0] == "from_random":
+            _, size, c, workers, mode, k, seed = op
+            if workers > 1:
+                yield ["from_random", size, c, 1, mode, k, seed]
+            if mode != "apply":
+                yield ["from_random", size, c, workers, "apply", k, seed]
+            if k > 1:
+                yield ["from_random", size, c, workers, mode, 1, seed]
+            if seed:
+                yield ["from_random", size, c, workers, mode, k, 0]
+            if c is not None and size > 2 * c:
+                yield ["from_random", 2 * c, c, workers, mode, k, seed]
+            if c is not None and size > c + 1 and size % c:
+                yield ["from_random", c + 1, c, workers, mode, k, seed]
+
+    for h in shrink_history(hist, simplify):
         c = copy.deepcopy(case)
-        c["history"] = hist[:i] + hist[i + 1 :]
+        c["history"] = h
         yield c
     for key in ("has_w", "has_z"):
         if case.get(key):
